@@ -237,8 +237,9 @@ func (m *MethodMocker) ExportMethod(name string) UnExportedMocker {
 // mock 回调函数, 需要和 mock 模板函数的签名保持一致
 // 方法的参数签名写法比如: func(s *Struct, arg1, arg2 type), 其中第一个参数必须是接收体类型
 func (m *MethodMocker) Apply(callback interface{}) {
-	m.when = nil
 	m.doApply(callback)
+	// 成功之后才丢弃之前的 When: 被拒绝的 Apply 不能改变已有的 mock
+	m.when = nil
 }
 
 func (m *MethodMocker) doApply(imp interface{}) {
@@ -371,7 +372,6 @@ func (m *UnexportedMethodMocker) Method(name string) UnExportedMocker {
 // mock 回调函数, 需要和 mock 模板函数的签名保持一致
 // 方法的参数签名写法比如: func(s *Struct, arg1, arg2 type), 其中第一个参数必须是接收体类型
 func (m *UnexportedMethodMocker) Apply(callback interface{}) {
-	m.when = nil
 	name := m.objName()
 	if name == "" {
 		panic("method name is empty")
@@ -383,6 +383,7 @@ func (m *UnexportedMethodMocker) Apply(callback interface{}) {
 
 	callback, _ = interceptDebugInfo(callback, nil, m)
 	m.applyByName(name, callback)
+	m.when = nil
 	logger.Consolefc(logger.DebugLevel, "mocker [%s] apply.", logger.Caller(5), m.String())
 }
 
@@ -445,9 +446,9 @@ func (m *UnexportedFuncMocker) objName() string {
 // mock 回调函数, 需要和 mock 模板函数的签名保持一致
 // 方法的参数签名写法比如: func(s *Struct, arg1, arg2 type), 其中第一个参数必须是接收体类型
 func (m *UnexportedFuncMocker) Apply(callback interface{}) {
-	m.when = nil
 	callback, _ = interceptDebugInfo(callback, nil, m)
 	m.applyByName(m.objName(), callback)
+	m.when = nil
 	logger.Consolefc(logger.DebugLevel, "mocker [%s] apply.", logger.Caller(5), m.String())
 }
 
@@ -494,8 +495,9 @@ func NewDefMocker(pkgName string, funcDef interface{}) *DefMocker {
 
 // Apply 代理方法实现
 func (m *DefMocker) Apply(callback interface{}) {
-	m.when = nil
 	m.doApply(callback)
+	// 成功之后才丢弃之前的 When: 被拒绝的 Apply 不能改变已有的 mock
+	m.when = nil
 }
 
 func (m *DefMocker) doApply(imp interface{}) {
